@@ -34,6 +34,8 @@ def main():
             sid = a[1]
         a = a[2:]
     patch = os.path.join(src, "change%s.diff" % n)
+    if "--patch" in sys.argv:
+        patch = sys.argv[sys.argv.index("--patch") + 1]
     demo = os.path.join(src, "demo%s" % n)
     run_md = open(os.path.join(demo, "RUN.md")).read()
     # destination of each demo file: "`name` -> copy to `path`" (several phrasings)
